@@ -113,13 +113,15 @@ CLAIMED = {
             'covariance inputs contribute J1 Sigma J2^T and disjoint ensembles contribute 0. The executable model of covariance() is compared with '
             'pyerrors and every clause of the statement is evaluated on the implementation for each generated list in every order.',
             'Lean kernel; standard axioms; LAPACK eigh / cholesky / solve_triangular by contract (reconstruction residuals measured each run); gamma-method errors are C02; generator-bounded search.', '5 C06'),
-    'C07': ('Lean 4 theorems (Mathlib Matrix: normal equations unique, chi-square decomposition => minimiser, -H^-1 M = GLS sensitivity, row-permutation invariance, priors = augmented rows, dof) + closed-form GLS oracle with per-configuration fluctuations evaluated on the implementation',
+    'C07': ('Lean 4 theorems (Mathlib Matrix: normal equations unique, chi-square decomposition => minimiser, -H^-1 M = GLS sensitivity, row-permutation invariance, priors = augmented rows, dof; executable exact-rational GLS: whatever it returns satisfies the normal equations) + the Lean GLS model run on the data of every generated fit as the closed-form oracle, with per-configuration fluctuations, evaluated on the implementation',
             'Proof: for a model linear in its parameters the normal equations have the unique solution (A^T W A)^-1 A^T W y, chi-square decomposes as '
             'chi2(p*) + |L A (p - p*)|^2 so p* is the minimiser, the implicit-function sensitivity -H^-1 M the code propagates with equals the GLS map '
-            '(A^T W A)^-1 A^T W, row permutations leave estimator / sensitivities / chi-square unchanged, priors act as augmented rows and dof counts them. '
-            'Every generated fit (single / combined, priors in all forms, correlated, all minimisers, num_grad, permuted) is compared with the closed form: '
-            'values, every per-configuration fluctuation by configuration number, every covariance-input gradient, chi-square, dof, p-value.',
-            'Lean kernel; standard axioms; scipy least_squares / minimize / iminuit (contract: stationary point, measured), autograd / numdifftools Hessians, scipy.stats chi2 by contract; the residual-vector assembly of fits.py is tied by the oracle comparison, not by a Lean model.', '5 C07'),
+            '(A^T W A)^-1 A^T W, row permutations leave estimator / sensitivities / chi-square unchanged, priors act as augmented rows and dof counts them; '
+            'the executable estimator PV.Model.Gls (exact rational arithmetic, certificate style) returns only solutions for which (A^T W A) p = A^T W y and '
+            '(A^T W A) S = A^T W hold exactly (c07_gls_normal_equations). Every generated fit (single / combined, priors in all written forms, correlated, '
+            'all minimisers, num_grad, permuted) is compared with that estimator run on its own design matrix, weights and data: values, every '
+            'per-configuration fluctuation by configuration number, every covariance-input gradient, chi-square, dof, p-value, Hotelling t2 p-value.',
+            'Lean kernel; standard axioms; scipy least_squares / minimize / iminuit (contract: stationary point, measured), autograd / numdifftools Hessians, scipy.stats chi2 / f by contract; the design matrix, the weights (from pyerrors\' own errors / covariance) and the prior rows are assembled by the harness from the documented model, not by a Lean model of fits.py; the list-matrix model is not connected to the Mathlib Matrix theorems by proof.', '5 C07'),
     'C08': ('Lean 4 theorems (implicit-function rule algebraically H X + M = 0 => X = -H^-1 M, one-parameter analytic chain rule, block slices of the ODR Hessian, TLS -> ordinary LS limit) + independent chi-square / finite-difference implicit-function oracle evaluated on the implementation',
             'Proof: a sensitivity X satisfying the differentiated stationarity condition H X + M = 0 with invertible H is -H^-1 M; in one parameter the '
             'analytic implicit-function derivative follows from the chain rule; the code\'s block slicing of the total-least-squares mixed Hessian selects the '
